@@ -73,6 +73,16 @@ Proof.
   split; [apply negb_true_iff; exact T|]. repeat split; apply N.eqb_neq; apply negb_true_iff; assumption.
 Qed.
 
+Definition up_key_noquote (kv : N * N) : bool := negb (fst kv =? 39) && negb (fst kv =? 34).
+Lemma up_keys_noquote : forallb up_key_noquote upper_ascii_tab = true.
+Proof. vm_compute. reflexivity. Qed.
+Lemma up_keynoquote : forall x u, upper x = Some u -> x <> 39 /\ x <> 34.
+Proof.
+  intros x u H. apply assoc_in in H. pose proof up_keys_noquote as T. rewrite forallb_forall in T. specialize (T _ H).
+  unfold up_key_noquote in T. cbn [fst] in T. apply andb_prop in T. destruct T as [T1 T2].
+  split; apply N.eqb_neq; apply negb_true_iff; assumption.
+Qed.
+
 (* the keyword table holds upper-case ASCII letters only (so that a converted keyword is a fixed point) *)
 Lemma keywords_upper : forallb (forallb (fun b => (65 <=? b) && (b <=? 90))) keywords_tab = true.
 Proof. vm_compute. reflexivity. Qed.
